@@ -9,9 +9,10 @@ compared with the Lean model of the decoding code run on the same bytes
 (correspondence) and judged by the Lean property predicates (info_ok,
 sysinfo_ok, dead_ok, machine_ok, reservations_ok, core_ok, sver_ok) against the
 abstract state (oracle)."""
+import os
 import struct
 
-from harness import simnet, simmachine
+from harness import common, simnet, simmachine
 
 CLAIM = dict(
     text=("Machine-checked proof (Lean 4) for ALL machine states: decoding the `info` reply built by the machine "
@@ -53,7 +54,17 @@ CLAIM = dict(
           "and a second controller; every later probe is judged by the same Lean oracles against the machine's state at "
           "that moment and every later derivation against the Lean model of the (caller-owned, possibly edited) "
           "description, so state shared between returned objects and later results - per controller or process-wide - is "
-          "reported as `probe-affected-by-caller-mutation` with the whole script incl. the edits as replay."),
+          "reported as `probe-affected-by-caller-mutation` with the whole script incl. the edits as replay. STRUCT "
+          "LAYOUTS: the struct definitions in force (MachineController.structs) are a parameter of the Lean model (`...L` "
+          "functions, proved to be the original functions at the bundled definitions: layout_default_instance) and of "
+          "the Lean machine specification; simulated chips / machines come in six layouts (sv block at another base, "
+          "same-sized sv fields exchanged, 160-byte vcpu blocks with every field moved, vcpu fields exchanged) whose "
+          "struct-file text is parsed by rig's read_struct_file for the controller and independently for Lean; sessions "
+          "put the same struct-reading probe to chips of different layouts with one controller per layout (structs= "
+          "argument) or with controllers whose .structs is replaced (what boot() does), derive scripts read sv.p2p_dims "
+          "before a boot that installs other definitions; every probe is judged against the machine laid out under its "
+          "own layout. A failing probe that is right when made alone in a new process is reported as "
+          "`probe-depends-on-process-history`; probes are cut off after 3000 datagrams / 2 s CPU."),
     design="3/C14",
     note=("Proved relative to the Lean machine specification (layout of the info word, P2P packing, vcpu block, IOBUF "
           "header, sver reply) written from the layouts the code documents; only the bytes concerned are constrained "
@@ -76,7 +87,8 @@ THEOREMS = ["consts_documented", "chipinfo_roundtrip", "p2p_roundtrip", "p2p_tab
             "status_block", "processor_status_exact", "p2p_keys_nodup", "get_system_info_exact",
             "probe_to_machine_exact", "contains_exact", "links_cores_enumerate", "target_lengths_exact",
             "probe_views_exact", "sysinfo_oracle_exact", "reservations_oracle_exact", "dead_oracle_exact",
-            "machine_oracle_exact", "links_cores_once", "struct_field_exact"]
+            "machine_oracle_exact", "links_cores_once", "struct_field_exact",
+            "layout_default_instance"]
 
 RULE = ("cases = machine states: (system) P2P dimensions 1..12 x 1..12 and sparse 255-wide/high tables, listed / "
         "unlisted / unresponsive (silent or error-code) / ghost chips, per-chip core counts, state patterns shared by "
@@ -85,7 +97,9 @@ RULE = ("cases = machine states: (system) P2P dimensions 1..12 x 1..12 and spars
         "(core) vcpu block, IOBUF chains of 0-4 blocks, router counters; (sver) both version encodings; (session) one "
         "controller, 2-4 chips with different system variables, 2-6 probes with console output / state changes / "
         "re-boots between them, the caller editing returned objects and repeating the probe on the same / a second "
-        "controller; (derive) a system-case machine, two controllers, a script of probes (get_system_info / "
+        "controller, 40% of the sessions with chips of 2-3 different struct layouts (re-boots may change a chip's "
+        "layout); (derive) a system-case machine (40% under a non-bundled struct layout, read before and after the boot "
+        "that installs it), two controllers, a script of probes (get_system_info / "
         "get_machine), derivations, edits of the description and of derived objects. non-trivial = session probing "
         ">= 2 chips, derive case whose description has >= 2 chips and a busy core or dead chip, "
         "system/direct case with >= 2 described chips and a busy non-monitor core or a dead chip, chip case in the "
@@ -141,11 +155,42 @@ def run_controller(machine, fn, silent=(), rc_chips=None, n_tries=3):
         return guard(lambda: fn(mc))
 
 
+class Runaway(BaseException):
+    """a single probe sent more datagrams than any probe of these machines can need"""
+
+
+class Budget(object):
+    """network script that answers every datagram and stops a probe that runs away (e.g. one that walks memory
+    it was never meant to read)"""
+
+    def __init__(self, limit=3000):
+        self.limit, self.left = limit, limit
+
+    def reset(self):
+        self.left = self.limit
+
+    def __call__(self, k, data):
+        self.left -= 1
+        if self.left < 0:
+            raise Runaway()
+        return [(1, "ok")]
+
+
+def limited(fn, seconds=2):
+    """fn() within a CPU-time limit (a probe of these machines takes milliseconds)"""
+    with common.cpu_limit(seconds):
+        return fn()
+
+
 def guard(fn):
     """{"ok": fn()} or the exception mapped to the model's error enumeration"""
     from rig.machine_control import scp_connection as sc
     try:
         return {"ok": fn()}
+    except Runaway:
+        return {"err": "Runaway"}
+    except common.ImplHang as e:
+        return {"err": "Hang (%s)" % (e,)}
     except sc.SCPError:
         return {"err": "SCPError"}
     except ValueError as e:
@@ -579,11 +624,99 @@ def gen_core(rng, size=None, session=False):
     return case
 
 
+# --------------------------------------------------------------------------- struct layouts
+SV_SWAPS = [("p2p_dims", "p2p_addr"), ("iobuf_size", "sys_bufs"), ("vcpu_base", "sdram_sys"), ("num_cpus", "rom_cpus"),
+            ("rtr_copy", "sys_heap")]
+VCPU_SWAPS = [("iobuf", "time"), ("cpu_state", "phys_cpu"), ("r0", "r7"), ("user0", "user3"), ("psr", "lr")]
+#            variant: (swap sv fields, vcpu blocks of 160 bytes with every field 16 bytes further, swap vcpu fields)
+LAYOUT_FLAGS = {0: (False, False, False), 1: (False, False, False), 2: (True, False, False), 3: (False, True, False),
+                4: (False, False, True), 5: (True, True, True)}
+_LAYOUT_TEXT, _LAYOUT_JSON = {}, {}
+
+
+def layout_text(variant):
+    """the text of a struct file: variant 0 = rig's sark.struct; variant v > 0 = the same variables with the sv
+    block 0x100 v lower and, depending on v, same-sized sv fields exchanged, larger vcpu blocks with every field
+    moved, same-sized vcpu fields exchanged (what booting another system image gives)"""
+    if variant not in _LAYOUT_TEXT:
+        import re
+        from harness import common
+        text = open(os.path.join(common.REPO, "rig", "boot", "sark.struct"), "rb").read().decode()
+        if variant:
+            sv_swap, vcpu_grow, vcpu_swap = LAYOUT_FLAGS[variant]
+            fld = re.compile(r"^(\S+)(\s+)(\S+)(\s+)(\S+)(\s+\S+\s+\S+.*)$")
+            cur, offs = None, {}
+            for line in text.splitlines():
+                m = re.match(r"name\s*=\s*(\S+)", line)
+                if m:
+                    cur = m.group(1)
+                m = fld.match(line)
+                if m and not line.startswith("#") and "=" not in line.split("#")[0]:
+                    offs.setdefault((cur, m.group(1).split("[")[0]), int(m.group(5), 0))
+            partner = {}
+            for st, pairs, on in (("sv", SV_SWAPS, sv_swap), ("vcpu", VCPU_SWAPS, vcpu_swap)):
+                for a, b in (pairs if on else []):
+                    partner[(st, a)], partner[(st, b)] = (st, b), (st, a)
+            out, cur = [], None
+            for line in text.splitlines():
+                m = re.match(r"name\s*=\s*(\S+)", line)
+                if m:
+                    cur = m.group(1)
+                m = fld.match(line)
+                if re.match(r"base\s*=", line) and cur == "sv":
+                    line = "base = %#x" % (int(line.split("=")[1].split("#")[0], 0) - 0x100 * variant)
+                elif re.match(r"size\s*=", line) and cur == "vcpu" and vcpu_grow:
+                    line = "size = %d" % (int(line.split("=")[1].split("#")[0], 0) + 32)
+                elif m and not line.startswith("#") and "=" not in line.split("#")[0]:
+                    key = (cur, m.group(1).split("[")[0])
+                    off = offs[partner.get(key, key)] if key in partner else int(m.group(5), 0)
+                    if cur == "vcpu" and vcpu_grow:
+                        off += 16
+                    line = m.group(1) + m.group(2) + m.group(3) + m.group(4) + "%#04x" % off + m.group(6)
+                out.append(line)
+            text = "\n".join(out) + "\n"
+        _LAYOUT_TEXT[variant] = text
+    return _LAYOUT_TEXT[variant]
+
+
+def rig_structs(variant):
+    """the struct definitions as rig parses them (a fresh parse for every controller)"""
+    from rig.machine_control import struct_file
+    return struct_file.read_struct_file(layout_text(variant).encode())
+
+
+def layout_json(variant):
+    """the same definitions parsed independently of rig, for the Lean machine specification and model"""
+    if variant not in _LAYOUT_JSON:
+        from harness.gen.c14 import parse_struct_text
+        st = parse_struct_text(layout_text(variant))
+        fl = lambda fs: [[f[0], f[1], f[2], bool(f[3]), f[4]] for f in fs]  # noqa: E731
+        _LAYOUT_JSON[variant] = {"sv_base": st["sv"]["base"], "sv_fields": fl(st["sv"]["fields"]),
+                                 "vcpu_size": st["vcpu"]["size"], "vcpu_fields": fl(st["vcpu"]["fields"])}
+    return _LAYOUT_JSON[variant]
+
+
+def lay(req, c, variant):
+    """the request made under a struct layout: the bundled definitions go through the original (theorem-carrying)
+    model functions unless the case asks for the explicit form"""
+    if variant or c.get("explicit_default"):
+        req["layout"] = layout_json(variant)
+    return req
+
+
+def new_controller(net, variant):
+    if not variant:
+        return simmachine.make_controller(net, n_tries=3, timeout=2.0)
+    from rig.machine_control.machine_controller import MachineController
+    return MachineController("sim", n_tries=3, timeout=2.0, structs=rig_structs(variant))
+
+
 # --------------------------------------------------------------------------- sessions
 SESSION_OPS = ["iobuf_bytes", "iobuf", "status", "chip_info", "diag", "p2p", "system_info", "sv", "vcpu"]
 SESSION_FAMILIES = [["iobuf_bytes", "iobuf"], ["iobuf_bytes", "iobuf"], ["status", "vcpu"], ["chip_info", "system_info"],
                     ["diag"], ["p2p", "system_info"], ["sv"], ["vcpu", "iobuf_bytes"]]
 SESSION_SIZES = [4, 16, 60, 64, 128, 252, 256, 1000]
+STRUCT_OPS = ["iobuf_bytes", "status", "vcpu", "sv", "p2p", "system_info"]      # probes that read struct fields
 MUTABLE_OPS = ("chip_info", "system_info", "status", "p2p")     # probes that return mutable objects
 SV_NAMES = ["iobuf_size", "vcpu_base", "p2p_dims", "sdram_sys", "rtr_copy", "num_cpus", "sdram_base", "sysram_base",
             "sys_heap", "sdram_heap", "sysram_heap", "sys_bufs", "hop_table", "alloc_tag", "rtr_free", "app_data",
@@ -632,6 +765,9 @@ def gen_session(rng):
     n = rng.choice([2, 2, 3, 4])
     coords = rng.sample([(x, y) for x in range(4) for y in range(3)], n)
     tmpl = gen_template(rng)
+    # struct layouts: one for every chip (= machine image); a layout session has two or three different ones
+    multi = rng.random() < 0.4
+    pool = rng.sample(sorted(LAYOUT_FLAGS), rng.choice([2, 2, 3])) if multi else [0]
 
     def fresh_params():
         sizes = rng.sample(SESSION_SIZES, n)
@@ -642,6 +778,8 @@ def gen_session(rng):
     sizes, bases = fresh_params()
     chips = [{"x": xy[0], "y": xy[1], "epochs": [gen_epoch(rng, coords, sizes[i], bases[i], tmpl, True)]}
              for i, xy in enumerate(coords)]
+    for i, ch in enumerate(chips):
+        ch["epochs"][0]["layout"] = pool[i % len(pool)]
     cur = [0] * n
     family = rng.choice(SESSION_FAMILIES) if rng.random() < 0.7 else SESSION_OPS
     steps = []
@@ -657,6 +795,7 @@ def gen_session(rng):
                 sizes, bases = fresh_params()
                 for i in range(n):
                     chips[i]["epochs"].append(gen_epoch(rng, coords, sizes[i], bases[i], tmpl, True))
+                    chips[i]["epochs"][-1]["layout"] = rng.choice(pool)      # booted with another image
                     cur[i] = len(chips[i]["epochs"]) - 1
                     st["set"].append([i, cur[i]])
             else:
@@ -704,8 +843,26 @@ def gen_session(rng):
         for st in steps:
             if "ctl" not in st and rng.random() < 0.25:
                 st["ctl"] = 1
+    if multi:
+        # the same struct-reading probe on a chip of one layout and then on a chip of another layout comes first
+        a, b = 0, 1
+        op = rng.choice(STRUCT_OPS)
+        pre = [{"set": [], "mut": None, "chip": i, "op": op} for i in (a, b)]
+        if op == "sv":
+            pre[0]["name"] = pre[1]["name"] = rng.choice(SV_NAMES[:6] + SV_NAMES)
+        elif op == "vcpu":
+            pre[0]["name"] = pre[1]["name"] = rng.choice(sorted(VCPU_NAMES))
+        steps[0:0] = pre
+        # one controller per layout (constructed with structs=...), or controllers whose .structs is replaced
+        # whenever they turn to a chip of another layout (what boot() does)
+        per_layout = rng.random() < 0.5
+        for st in steps:
+            if per_layout:
+                st["ctl"] = 0 if st["chip"] % len(pool) == 0 else 1
+            elif "ctl" not in st and rng.random() < 0.3:
+                st["ctl"] = 1
     return {"kind": "session", "chips": chips, "steps": steps, "root": rng.randrange(n),
-            "buf": rng.choice([256, 256, 128, 64, 512])}
+            "buf": rng.choice([256, 256, 128, 64, 512]), "explicit_default": rng.random() < 0.5}
 
 
 def gen_sver(rng):
@@ -766,7 +923,9 @@ def malformed_reply(rep, mal):
     return rep
 
 
-_TAINTED = [False]     # a caller-mutation leak was shown in this process: nothing later is a clean reference
+_TAINTED = [None]      # key of the first finding that results depend on the history of this process (caller edits,
+#                        struct layouts used before): from then on nothing in this process is a clean reference
+LAYOUT_OPS = ("iobuf", "status", "p2p_table", "system_info", "sv_field", "vcpu_field")
 CORE_FIELDS = ("p", "vcpu_base", "iobuf_size", "status", "sw_top", "name16", "pad", "blocks", "diag")
 SESSION_KEYS = {"iobuf": "iobuf-wrong", "iobuf_bytes": "iobuf-wrong", "status": "status-wrong",
                 "chip_info": "chip-info-wrong", "diag": "router-counters-wrong", "p2p": "system-info-wrong",
@@ -777,10 +936,11 @@ def session_spec_reqs(L, c):
     """(slot, request): the Lean machine specification lays out every epoch of every chip"""
     for ci, ch in enumerate(c["chips"]):
         for ek, e in enumerate(ch["epochs"]):
-            yield ("img", ci, ek, "core"), L("spec_core", **{f: e[f] for f in CORE_FIELDS})
+            v = e.get("layout", 0)
+            yield ("img", ci, ek, "core"), lay(L("spec_core", **{f: e[f] for f in CORE_FIELDS}), c, v)
             yield ("img", ci, ek, "info"), L("spec_info", **e["info"])
-            yield ("img", ci, ek, "p2p"), L("spec_p2p", chips=[], **e["p2p"])
-            yield ("img", ci, ek, "sv"), L("spec_sv", fields=e["sv"])
+            yield ("img", ci, ek, "p2p"), lay(L("spec_p2p", chips=[], **e["p2p"]), c, v)
+            yield ("img", ci, ek, "sv"), lay(L("spec_sv", fields=e["sv"]), c, v)
 
 
 def session_image(w, ci, ek):
@@ -851,10 +1011,11 @@ def run_session(c, w, only=None):
     cur = [0] * len(c["chips"])
     for ci in range(len(cur)):
         session_apply(m, c, w, ci, 0)
-    net = simnet.Net(m.handle, lambda k, d: [(1, "ok")])
+    budget = Budget()
+    net = simnet.Net(m.handle, budget)
     out, snaps, edits = [], [], []
     with simnet.installed(net):
-        mcs = {}
+        mcs, ctl_layout, restructs = {}, {}, [0]
         for k, st in enumerate(c["steps"]):
             for ci, ek in st["set"]:
                 session_apply(m, c, w, ci, ek)
@@ -863,9 +1024,16 @@ def run_session(c, w, only=None):
             edits.append([])
             if only is None or only == k:
                 ctl = st.get("ctl", 0) if only is None else "fresh"
+                v = c["chips"][st["chip"]]["epochs"][cur[st["chip"]]].get("layout", 0)
                 if ctl not in mcs:
-                    mcs[ctl] = simmachine.make_controller(net, n_tries=3, timeout=2.0)
-                res = guard(lambda: session_probe(mcs[ctl], c, w, st, cur))
+                    mcs[ctl] = new_controller(net, v)          # MachineController(..., structs=<that layout>)
+                    ctl_layout[ctl] = v
+                elif ctl_layout[ctl] != v:
+                    mcs[ctl].structs = rig_structs(v)          # what boot() does with the booted image's definitions
+                    ctl_layout[ctl] = v
+                    restructs[0] += 1
+                budget.reset()
+                res = guard(lambda: limited(lambda: session_probe(mcs[ctl], c, w, st, cur)))
                 if "ok" in res:
                     canon, raw = res["ok"]
                     res = {"ok": canon}
@@ -876,6 +1044,8 @@ def run_session(c, w, only=None):
                 out.append(None)
             if only == k:
                 break
+    if only is None:
+        w["restructs"] = restructs[0]
     return out, snaps, edits
 
 
@@ -891,6 +1061,8 @@ def session_reqs(L, c, w, k, cur, impl):
     op = session_op(c, w, st, cur)
     core = dict(status=e["status"], blocks=e["blocks"], diag=e["diag"])
     okey = None
+    L0 = L
+    L = lambda o, **kw: lay(L0(o, **kw), c, e.get("layout", 0)) if o in LAYOUT_OPS else L0(o, **kw)  # noqa: E731
     if op in ("iobuf", "iobuf_bytes"):
         model, oracle, okey = L("iobuf", mem=mem, p=e["p"], fuel=len(e["blocks"]) + 2), L("core_ok", got_text=got, **core), "text"
     elif op == "status":
@@ -918,6 +1090,39 @@ def session_reqs(L, c, w, k, cur, impl):
     if got is None:
         oracle = None
     return model, oracle, okey
+
+
+def probe_in_new_process(c, w, k):
+    """the single probe of step k by a new controller in a NEW PROCESS (machine brought to the state of step k):
+    nothing any earlier probe, controller or case of this run left behind can reach it"""
+    import json
+    import subprocess
+    import sys
+    import tempfile
+    with tempfile.NamedTemporaryFile("w", suffix=".json", delete=False) as f:
+        json.dump({"c": c, "k": k, "img": [[ci, ek, v] for (ci, ek), v in w["img"].items()]}, f)
+    try:
+        out = subprocess.run([sys.executable, "-c", "import sys; sys.path.insert(0, %r); from harness import c14; "
+                              "c14._child(%r)" % (common.VERIF, f.name)], cwd=common.VERIF, capture_output=True,
+                             text=True, timeout=120)
+        return json.loads(out.stdout.strip().splitlines()[-1])
+    except Exception as e:      # noqa: no verdict from a failed helper
+        return {"err": "child failed: %s" % (e,)}
+    finally:
+        os.unlink(f.name)
+
+
+def _child(path):
+    import json
+    d = json.load(open(path))
+    w = {"img": {(ci, ek): v for ci, ek, v in d["img"]}}
+    print(json.dumps(run_session(d["c"], w, only=d["k"])[0][d["k"]]))
+
+
+def session_layouts(c, w, k):
+    """struct layouts of the chips probed up to and including step k"""
+    return [c["chips"][st["chip"]]["epochs"][w["snaps"][j][st["chip"]]].get("layout", 0)
+            for j, st in enumerate(c["steps"][:k + 1])]
 
 
 def session_model_norm(op, model):
@@ -955,6 +1160,8 @@ def judge_session(ctx, c, w):
             ctx.tag("session_edit_" + session_op(c, w, st, w["snaps"][k]))
     if len(set(st.get("ctl", 0) for st in c["steps"])) > 1:
         ctx.tag("session_two_controllers")
+    nlay = len(set(session_layouts(c, w, len(c["steps"]) - 1)))
+    ctx.tag("session_layouts_%d" % nlay, "session_restruct" if w.get("restructs") else "session_no_restruct")
     if first_bad is not None:
         k = first_bad
         st = c["steps"][k]
@@ -972,26 +1179,40 @@ def judge_session(ctx, c, w):
                 session_op(c, w, c["steps"][j], cur) == op and c["steps"][j].get("name") == st.get("name")]
         edits = [e for j in range(same[-1] if same else k, k) for e in w["edits"][j]]
         if same and edits:
-            _TAINTED[0] = True
+            _TAINTED[0] = "probe-affected-by-caller-mutation"
             ctx.violation("probe-affected-by-caller-mutation",
                           "after the caller edited objects that earlier probes had returned (%s), %s - not the machine's "
                           "values; the identical probe at step %d (machine unchanged since) returned the machine's "
                           "values %.200r" % ("; ".join(edits), what, same[-1], w["impl"][same[-1]]), c)
         elif _TAINTED[0]:
-            # this process already showed that an edit by the caller leaks into later probes; a fresh controller
-            # or a fresh session is no longer a clean reference
-            ctx.violation("probe-affected-by-caller-mutation", what + " - after an earlier case of this run showed "
-                          "that edits of returned objects leak into later probes", c)
+            # this process already showed that results depend on what happened before; a fresh controller or a
+            # fresh session is no longer a clean reference
+            ctx.violation(_TAINTED[0], what + " - after an earlier case of this run showed that results depend on the "
+                          "history of the process", c)
         else:
             # the same probe by a fresh controller on the machine in the same state
             fresh = run_session(c, w, only=k)[0][k]
             _, oracle, okey = session_reqs(L, c, w, k, cur, fresh)
             fresh_ok = "ok" in fresh and oracle is not None and session_verdict(ctx.lean([oracle])[0], okey)
+            child_ok = False
+            if not fresh_ok:
+                child = probe_in_new_process(c, w, k)
+                _, oracle, okey = session_reqs(L, c, w, k, cur, child)
+                child_ok = "ok" in child and oracle is not None and session_verdict(ctx.lean([oracle])[0], okey)
             if fresh_ok:
                 ctx.violation("probe-depends-on-earlier-probe",
                               "%s - not the machine's values for that chip at that moment - after the probes %s on the "
                               "same controller; a fresh controller making this single probe on the same machine state "
                               "returns the machine's values %.200r" % (what, before, fresh), c)
+            elif child_ok:
+                _TAINTED[0] = "probe-depends-on-process-history"
+                ctx.violation("probe-depends-on-process-history",
+                              "%s - not the machine's values for that chip (laid out under struct layout %d) at that "
+                              "moment - after the probes %s on chips of struct layouts %s in this session (earlier cases "
+                              "of the run used the bundled definitions, layout 0); a new "
+                              "controller with the right definitions in this process is wrong too (%.100r), the same "
+                              "single probe in a new process returns the machine's values" % (
+                                  what, session_layouts(c, w, k)[-1], before, session_layouts(c, w, k)[:-1], fresh), c)
             elif "err" in impl:
                 ctx.violation("unexpected-error", what, c)
             else:
@@ -1022,6 +1243,12 @@ def gen_derive(rng):
     script += [{"act": "probe", "ctl": k, "via": rng.choice(["system_info", "system_info", "machine"])} for k in ctls]
     script.append({"act": "derive"})
     c["script"] = script
+    # the machine's image was built with other struct definitions: the controllers first talk to the machine before
+    # it is booted (bundled definitions: they read sv.p2p_dims), then it is booted and boot() installs the image's
+    # definitions in the controllers
+    c["layout"] = rng.choice(sorted(LAYOUT_FLAGS)[1:]) if rng.random() < 0.4 else 0
+    c["preboot"] = (rng.randrange(1, 9) * 256 + rng.randrange(1, 9)) if c["layout"] else None
+    c["explicit_default"] = rng.random() < 0.5
     return c
 
 
@@ -1030,32 +1257,49 @@ def run_derive(c, w):
     import random
     root = tuple(c["root"])
     m = ProbeMachine(root=root, buffer_size=c["buf"])
-    for addr, data in w["p2p_mem"]["mem"]:
+    v = c.get("layout", 0)
+    pre = c.get("preboot")
+    for addr, data in (w["pre_mem"]["mem"] if pre is not None else w["p2p_mem"]["mem"]):
         m.poke(root[0], root[1], addr, bytes(data))
     for n, ch in enumerate(c["chips"]):
         m.info[(ch["x"], ch["y"])] = w["replies"][n]
-    net = simnet.Net(m.handle, lambda k, d: [(1, "ok")])
+    budget = Budget()
+    net = simnet.Net(m.handle, budget)
     recs = []
     si, keep = None, None
     with simnet.installed(net):
         mcs = {}
+        if pre is not None:
+            for ctl in (0, 1):
+                mcs[ctl] = new_controller(net, 0)
+                budget.reset()
+                rec = guard(lambda: limited(lambda: int(mcs[ctl].read_struct_field("sv", "p2p_dims", *root))))
+                recs.append(dict(rec, act="preboot", ctl=ctl))
+            m.mem[root] = {}                                # booted: nothing of the previous life remains
+            for addr, data in w["p2p_mem"]["mem"]:
+                m.poke(root[0], root[1], addr, bytes(data))
+            for ctl in (0, 1):
+                mcs[ctl].structs = rig_structs(v)           # what boot() does
         for a in c["script"]:
             rec = {"act": a["act"]}
             if a["act"] == "probe":
                 if a["ctl"] not in mcs:
-                    mcs[a["ctl"]] = simmachine.make_controller(net, n_tries=3, timeout=2.0)
+                    mcs[a["ctl"]] = new_controller(net, v)
                 mc = mcs[a["ctl"]]
+                budget.reset()
                 if a["via"] == "machine":
                     import warnings
                     with warnings.catch_warnings():
                         warnings.simplefilter("ignore")
-                        res = guard(lambda: mc.get_machine(*root) if c["explicit_start"] else mc.get_machine())
+                        res = guard(lambda: limited(
+                            lambda: mc.get_machine(*root) if c["explicit_start"] else mc.get_machine()))
                     if "ok" in res:
                         keep = {"machine": res["ok"], "constraints": [], "target_lengths": {}}
                         mj, shape = machine_json(res["ok"])
                         res = {"ok": mj, "shape_ok": shape}
                 else:
-                    res = guard(lambda: mc.get_system_info(*root) if c["explicit_start"] else mc.get_system_info())
+                    res = guard(lambda: limited(
+                        lambda: mc.get_system_info(*root) if c["explicit_start"] else mc.get_system_info()))
                     if "ok" in res:
                         si = res["ok"]
                         res = {"ok": si_json(si)}
@@ -1081,7 +1325,9 @@ def eval_derive(ctx, cases):
     # the Lean machine specification produces the bytes
     reqs, slots = [], []
     for i, c in enumerate(cases):
-        reqs.append(L("spec_p2p", **machine_state_json(c))); slots.append((i, "p2p_mem"))
+        reqs.append(lay(L("spec_p2p", **machine_state_json(c)), c, c.get("layout", 0))); slots.append((i, "p2p_mem"))
+        if c.get("preboot") is not None:
+            reqs.append(L("spec_sv", fields=[["p2p_dims", c["preboot"]]])); slots.append((i, "pre_mem"))
         for n, ch in enumerate(c["chips"]):
             reqs.append(L("spec_info", **state_only(ch))); slots.append((i, ("reply", n)))
     work = [dict(replies={}) for _ in cases]
@@ -1091,8 +1337,9 @@ def eval_derive(ctx, cases):
         else:
             work[i][slot] = r
     # the Lean model of get_system_info on those bytes: what every probe must return
-    reqs = [L("system_info", mem=w["p2p_mem"]["mem"],
-              replies=[dict(w["replies"][n], x=ch["x"], y=ch["y"]) for n, ch in enumerate(c["chips"])])
+    reqs = [lay(L("system_info", mem=w["p2p_mem"]["mem"],
+                  replies=[dict(w["replies"][n], x=ch["x"], y=ch["y"]) for n, ch in enumerate(c["chips"])]),
+                c, c.get("layout", 0))
             for c, w in zip(cases, work)]
     for w, r in zip(work, ctx.lean(reqs)):
         w["model"] = r
@@ -1103,7 +1350,10 @@ def eval_derive(ctx, cases):
         want_sj = w["model"]["ok"]["sysinfo"] if "ok" in w["model"] else None
         for k, rec in enumerate(w["recs"]):
             ctx.traces += 1
-            if rec["act"] == "probe" and "ok" in rec:
+            if rec["act"] == "preboot" and "ok" in rec:
+                reqs.append(L("val_ok", want=c["preboot"], got=rec["ok"])); slots.append((i, k, "oracle"))
+                reqs.append(L("sv_field", mem=w["pre_mem"]["mem"], name="p2p_dims")); slots.append((i, k, "model"))
+            elif rec["act"] == "probe" and "ok" in rec:
                 if rec["via"] == "system_info":
                     reqs.append(L("sysinfo_ok", state=machine_state_json(c), got=rec["ok"])); slots.append((i, k, "oracle"))
                 elif want_sj is not None:
@@ -1132,8 +1382,16 @@ def judge_derive(ctx, c, w):
             edits += rec["edits"]
             ctx.tag("derive_" + rec["act"])
             continue
-        if rec["act"] == "probe":
-            ctx.tag("derive_probe_" + rec["via"], "derive_ctl_%d" % rec["ctl"])
+        if rec["act"] == "preboot":
+            ctx.tag("derive_preboot")
+            if "ok" in rec:
+                cmp(ctx, "derive.preboot", {"ok": rec["ok"]}, rec["model"], c)
+            if rec.get("oracle") is not True:
+                ctx.violation("struct-field-wrong", "before the boot, read_struct_field('sv', 'p2p_dims') by controller "
+                              "%d returned %r, the machine holds %d" % (rec["ctl"], rec.get("ok", rec.get("err")),
+                                                                        c["preboot"]), c)
+        elif rec["act"] == "probe":
+            ctx.tag("derive_probe_" + rec["via"], "derive_ctl_%d" % rec["ctl"], "derive_layout_%d" % c.get("layout", 0))
             what = "step %d: %s by controller %d returned %.400r" % (
                 k, "get_system_info" if rec["via"] == "system_info" else "get_machine", rec["ctl"],
                 rec.get("ok", rec.get("err")))
@@ -1157,12 +1415,15 @@ def judge_derive(ctx, c, w):
         if new and (edits and right_before or _TAINTED[0]):
             # right until the caller edited objects it had been given, wrong afterwards
             del ctx.concrete[n0:]
-            _TAINTED[0] = True
             key0, what0, _ = new[0]
-            ctx.violation("probe-affected-by-caller-mutation",
-                          "after the caller edited objects it had been given (%s), %s [%s]; every probe / derivation "
-                          "before these edits was right" % ("; ".join(edits) or "in an earlier case of this run",
-                                                             what0, key0), c)
+            if edits and right_before and not _TAINTED[0]:
+                _TAINTED[0] = "probe-affected-by-caller-mutation"
+                ctx.violation("probe-affected-by-caller-mutation",
+                              "after the caller edited objects it had been given (%s), %s [%s]; every probe / derivation "
+                              "before these edits was right" % ("; ".join(edits), what0, key0), c)
+            else:
+                ctx.violation(_TAINTED[0], "%s [%s] - after an earlier case of this run showed that results depend on "
+                              "the history of the process" % (what0, key0), c)
         if not new:
             right_before = True
             edits = []
@@ -1464,7 +1725,7 @@ def gen_cases(ctx, n_sys, n_big, n_direct, n_chip, n_core, n_sver, n_session=0, 
 
 
 def run(ctx):
-    _TAINTED[0] = False
+    _TAINTED[0] = None
     ctx.extra["rule"] = RULE
     ctx.assumptions += [
         "machine specification (Lean): info word layout, P2P packing (8 entries of 3 bits per word, 32 words per column), "
@@ -1478,11 +1739,20 @@ def run(ctx):
         cases = gen_cases(ctx, 220 * k, 6 * k, 150 * k, 400 * k, 150 * k, 200 * k, 250 * k, 150 * k)
     else:
         cases = gen_cases(ctx, 4000 * k, 60 * k, 3000 * k, 8000 * k, 3000 * k, 4000 * k, 5000 * k, 3000 * k)
-    for i in range(0, len(cases), 400):
-        eval_cases(ctx, cases[i:i + 400])
+    plain = [c for c in cases if c["kind"] not in ("session", "derive")]
+    hist = [c for c in cases if c["kind"] in ("session", "derive")]
+    for i in range(0, len(plain), 400):
+        eval_cases(ctx, plain[i:i + 400])
+    for i in range(0, len(hist), 40):
+        if _TAINTED[0]:
+            # shown (with a replayable case) that results depend on the history of the process: every further
+            # session in this process would only repeat it
+            ctx.tag("history_streams_stopped")
+            break
+        eval_cases(ctx, hist[i:i + 40])
 
 
 def replay(ctx, payload):
-    _TAINTED[0] = False
+    _TAINTED[0] = None
     ctx.extra["rule"] = RULE
     eval_cases(ctx, [payload["case"]])
